@@ -23,6 +23,15 @@ PRELUDES = [
      ["find", 1, 2, ["name", "a"]], ["find", 1, None, ["all"]],
      ["set_link", 4, "RMetadata", None], ["referring", 8, "CSources"], ["reopen", False],
      ["lookup", 0, "CSections", ["name", "m"]], ["referring", 1, "CSources"]],
+    # one section WITHOUT properties as the metadata of an entity of every kind; the referring lists asked while it is
+    # empty and again after it got a property
+    [["create", 0, "CBlocks", "B", "t", []], ["create", 0, "CSections", "s", "t", []], ["create", 1, "CGroups", "g", "t", []],
+     ["create", 1, "CTags", "t", "t", [1]], ["create", 1, "CDataArrays", "a", "t", [1]], ["create_mtag", 1, "m", "t", 5],
+     ["create", 1, "CSources", "src", "t", []], ["set_link", 1, "RMetadata", 2], ["set_link", 3, "RMetadata", 2],
+     ["set_link", 4, "RMetadata", 2], ["set_link", 5, "RMetadata", 2], ["set_link", 6, "RMetadata", 2], ["set_link", 7, "RMetadata", 2],
+     ["referring", 2, "CBlocks"], ["referring", 2, "CGroups"], ["referring", 2, "CDataArrays"], ["referring", 2, "CTags"],
+     ["referring", 2, "CMultiTags"], ["referring", 2, "CSources"], ["create", 2, "CProperties", "p", "t", [1]],
+     ["referring", 2, "CGroups"], ["referring", 2, "CTags"]],
     # nested sources reached through the source lists of an array, a tag and a multi-tag; parents asked on those objects,
     # before and after a reopen
     [["create", 0, "CBlocks", "B", "t", []], ["create", 1, "CSources", "a", "t", []], ["create", 2, "CSources", "b", "t", []],
